@@ -118,3 +118,18 @@ func VRFNonce(seed, alpha, z []byte) *big.Int {
 	pad := make([]byte, 1024-(32+32))
 	return hashModL(z, key.Prefix, pad, Encode(H))
 }
+
+// VRFProveMixedKey is the prover for a public key with a torsion component: Y = [x]B + T (canonical, not of small
+// order, but outside the prime-order subgroup), Gamma = [x]H, s = k + c*x. RFC 9381 key validation (5.4.5) only
+// rejects Y with [8]Y = O, so the proof verifies exactly when c*T = O (then s*B - c*Y = k*B). Returns pk, pi, c.
+func VRFProveMixedKey(x *big.Int, t Pt, alpha []byte, v10 bool, k *big.Int) ([]byte, []byte, *big.Int) {
+	pk := Encode(B.Mul(x).Add(t))
+	H := vrfEncodeToCurve(pk, alpha)
+	gamma := H.Mul(x)
+	c := vrfChallenge(!v10, pk, H, gamma, B.Mul(k), H.Mul(k))
+	s := new(big.Int).Mod(new(big.Int).Add(k, new(big.Int).Mul(c, x)), L)
+	pi := append([]byte{}, Encode(gamma)...)
+	pi = append(pi, LE32(c)[:16]...)
+	pi = append(pi, LE32(s)...)
+	return pk, pi, c
+}
